@@ -7,8 +7,8 @@
    (Gen/DelegGen.v).  `lc` is the verdict function of the Labels validators: every statement holds for
    every validator (the same one is applied when a Labels object is built and when it is decoded). *)
 From Coq Require Import List ZArith NArith Bool String Permutation.
-From FIM Require Import Base.Str Base.Corr Gen.DelegGen Model.Deleg12 Model.Pools12 Model.Pools12H
-     Proofs.Deleg12Enc Proofs.Deleg12Pools Proofs.Deleg12Regroup Proofs.Deleg12Annotate Proofs.Deleg12Main Proofs.Deleg12Hist.
+From FIM Require Import Base.Str Base.Corr Gen.DelegGen Model.Deleg12 Model.Pools12 Model.Pools12H Model.Deleg12H
+     Proofs.Deleg12Enc Proofs.Deleg12Pools Proofs.Deleg12Regroup Proofs.Deleg12Annotate Proofs.Deleg12Main Proofs.Deleg12Hist Proofs.Deleg12DHist.
 Import ListNotations.
 
 (* ------------------------------------------------------------------------------------------------ *)
@@ -275,6 +275,48 @@ Theorem C12_conflict_after_any_history : forall ty ops,
 Proof. exact conflict_after_any_history. Qed.
 Print Assumptions C12_conflict_after_any_history.
 
+(* a read-only query of Pools / Pool (get_node_ids, get_delegation_ids, get_pools_by_delegation_id, strict
+   get_pool_by_id, validate_pools, get_type, the getters of a Pool) leaves the state exactly as it was *)
+Theorem C12_pools_queries_change_nothing : forall st q, fst (hstep st (HQuery q)) = st.
+Proof. exact query_changes_nothing. Qed.
+Print Assumptions C12_pools_queries_change_nothing.
+
+(* ------------------------------------------------------------------------------------------------ *)
+(* ONE Delegations container under any history (Model/Deleg12H.v: heap of shared Delegation objects,     *)
+(* the dictionary as references, the texts produced so far)                                            *)
+(* ------------------------------------------------------------------------------------------------ *)
+(* every state reachable by Delegation(...), set_details on any object, add_delegations (1..n arguments),
+   remove_by_id, queries, to_json, from_json of earlier texts: objects as the API builds them with constructor-built
+   details, references valid and of the container's type, ids distinct *)
+Theorem C12_container_state_invariant : forall lc ops st, dst_inv lc st ->
+  dst_inv lc (dfinal lc st ops) /\ dst_type (dfinal lc st ops) = dst_type st.
+Proof. exact drun_inv. Qed.
+Print Assumptions C12_container_state_invariant.
+
+(* to_json is a function of the CURRENT content: after ANY history the call returns the encoding of what the
+   container holds now, changes nothing, and whenever it succeeds from_json of its result IS the current content *)
+Theorem C12_encode_after_any_history : forall lc ty ops doc,
+  let st := dfinal lc (dinit ty) ops in
+  snd (dstep lc st DEncode) = v_res v_jdoc (to_json (dcontent st)) /\
+  dcontent (fst (dstep lc st DEncode)) = dcontent st /\
+  (to_json (dcontent st) = Ok doc ->
+   map fst doc = map d_id (ds_items (dcontent st)) /\ from_json lc ty doc = Ok (dcontent st)).
+Proof. exact encode_after_any_history. Qed.
+Print Assumptions C12_encode_after_any_history.
+
+(* the queries and from_json of an earlier text change neither the container nor any delegation object *)
+Theorem C12_container_queries_change_nothing : forall lc st o, dop_readonly o = true ->
+  dst_heap (fst (dstep lc st o)) = dst_heap st /\ dst_refs (fst (dstep lc st o)) = dst_refs st /\
+  dcontent (fst (dstep lc st o)) = dcontent st.
+Proof. exact readonly_changes_nothing. Qed.
+Print Assumptions C12_container_queries_change_nothing.
+
+(* remove_by_id removes exactly the delegation with that id *)
+Theorem C12_remove_by_id : forall lc st id,
+  ds_items (dcontent (fst (dstep lc st (DRemove id)))) = filter (fun d => negb (str_eqb (d_id d) id)) (ds_items (dcontent st)).
+Proof. exact remove_by_id_spec. Qed.
+Print Assumptions C12_remove_by_id.
+
 (* ------------------------------------------------------------------------------------------------ *)
 (* non-vacuity: concrete instances of the hypotheses                                                 *)
 (* ------------------------------------------------------------------------------------------------ *)
@@ -333,4 +375,19 @@ Example C12_nonvacuous_history :
 Proof.
   split; [vm_compute; reflexivity|]. split; [vm_compute; reflexivity|]. split; [vm_compute; reflexivity|].
   eexists. split; vm_compute; reflexivity.
+Qed.
+
+(* encode, remove d1, change d2's details through the object, encode again: the second text is the encoding of the
+   two remaining delegations with the new details, and it decodes to the current content *)
+Example C12_nonvacuous_container_history :
+  let st := dfinal accept_all (dinit TCap) ex_dhistory in
+  map d_id (ds_items (dcontent st)) = [S"d2"; S"d3"] /\
+  List.length (dst_texts st) = 2%nat /\
+  nth_error (dst_texts st) 0 <> nth_error (dst_texts st) 1 /\
+  (exists doc, nth_error (dst_texts st) 1 = Some (Ok doc) /\ to_json (dcontent st) = Ok doc /\
+               from_json accept_all TCap doc = Ok (dcontent st)).
+Proof.
+  split; [vm_compute; reflexivity|]. split; [vm_compute; reflexivity|].
+  split; [vm_compute; intro H; discriminate H|].
+  eexists. split; [vm_compute; reflexivity|]. split; vm_compute; reflexivity.
 Qed.
